@@ -278,4 +278,119 @@ def verify (bks : List Bucket) (price fuel : Nat) (db : DB) (t : Tx) : Bool :=
 def submit (bks : List Bucket) (price fuel : Nat) (db : DB) (t : Tx) : DB × Bool :=
   if verify bks price fuel db t then (commit db t, true) else (db, false)
 
+/-! ### the declared write set as it stands in the transaction
+
+`Tx` above is the DECODED view of a transaction (stored writes, declared contract inputs / outputs / events).
+What `verifyTxRWSets` compares is the list `TxOutputsExt` itself: `GenRWSetFromTx` turns every entry - transient or
+not, in whatever order and however often it occurs - into a `PureData`, `xmodel.Equal` sorts that list and the
+re-executed `RWSet().WSet` by (bucket, key, value) and compares them pairwise (= the two lists are permutations of
+each other), while `ParseContractUtxoInputs` / `ParseContractUtxoOutputs` take the value of the LAST transient
+entry with their key.  `RawTx` keeps the list; `Tx.raw` is the canonical encoding (transient entries first, as
+`Flush` orders them), `RawTx.view` the decoding.  A declared write set in which an entry stands twice, or stands in
+for another one, can only be said on this level. -/
+
+/-- an entry of `TxOutputsExt` -/
+inductive WX where
+  | tr (e : TEntry)      -- bucket `$transient`
+  | kv (w : WEntry)      -- (bucket, key, value)
+deriving Repr, DecidableEq
+
+def kvOf : List WX → List WEntry
+  | [] => []
+  | .kv w :: rest => w :: kvOf rest
+  | .tr _ :: rest => kvOf rest
+
+def trOf : List WX → List TEntry
+  | [] => []
+  | .tr e :: rest => e :: trOf rest
+  | .kv _ :: rest => trOf rest
+
+/-- the parse loops of `xmodel`: the value of the LAST transient entry of the wanted kind, empty if there is none -/
+def pickStep (sel : TEntry → Option (List α)) (acc : List α) (e : TEntry) : List α :=
+  match sel e with
+  | some x => x
+  | none => acc
+
+def pickLast (sel : TEntry → Option (List α)) (l : List TEntry) : List α := l.foldl (pickStep sel) []
+
+def selIn : TEntry → Option (List TxIn)
+  | .inputs x => some x
+  | _ => none
+
+def selOut : TEntry → Option (List TxOut)
+  | .outputs x => some x
+  | _ => none
+
+def selEv : TEntry → Option (List Event)
+  | .events x => some x
+  | _ => none
+
+/-- `ParseContractUtxoInputs` -/
+def parseIn (l : List TEntry) : List TxIn := pickLast selIn l
+
+/-- `ParseContractUtxoOutputs` -/
+def parseOut (l : List TEntry) : List TxOut := pickLast selOut l
+
+/-- the declared events (nothing parses them during verification; part of the decoded view only) -/
+def parseEv (l : List TEntry) : List Nat := (pickLast selEv l).map (·.name)
+
+structure RawTx where
+  id : Nat
+  prog : Prog
+  limit : Nat
+  fee : Nat
+  kin : List REntry
+  wext : List WX       -- `TxOutputsExt`, in order
+  ins : List Nat
+  outs : List TxOut
+
+/-- what `Flush` leaves in `RWSet().WSet`: the transient entries, then the buckets in order -/
+def encodeW (cin : List TxIn) (cx : List TxOut) (ev : List Nat) (kout : List WEntry) : List WX :=
+  (transientOf cin cx ev).map .tr ++ kout.map .kv
+
+def Tx.raw (t : Tx) : RawTx :=
+  { id := t.id, prog := t.prog, limit := t.limit, fee := t.fee, kin := t.kin,
+    wext := encodeW t.cin t.cx t.ev t.kout, ins := t.ins, outs := t.outs }
+
+def RawTx.view (t : RawTx) : Tx :=
+  { id := t.id, prog := t.prog, limit := t.limit, fee := t.fee, kin := t.kin, kout := kvOf t.wext,
+    cin := parseIn (trOf t.wext), cx := parseOut (trOf t.wext), ev := parseEv (trOf t.wext),
+    ins := t.ins, outs := t.outs }
+
+/-- the write set of a finished execution after `Flush` -/
+def fullW (bks : List Bucket) (x : Ctx σ) : List WX :=
+  encodeW x.tok.uin x.tok.uout x.m.ev (wsetOf bks x.sb)
+
+/-- the re-execution of `verifyTxRWSets` over the declared reads and the parsed contract inputs, `Flush`, and
+`xmodel.Equal` of the declared list with the re-executed one (both sorted, compared pairwise) -/
+def reexecRaw (bks : List Bucket) (fuel : Nat) (db : DB) (t : RawTx) : Bool :=
+  match exec bks (memReader (rsOf db t.kin)) replayReader t.prog fuel (Ctx.init t.view.cin) with
+  | (x, .ok) => decide (x.m.peak ≤ t.limit) && t.wext.isPerm (fullW bks x)
+  | _ => false
+
+/-- `State.VerifyTx` + the xmodel part of `State.DoTx` on the transaction as it stands -/
+def verifyRaw (bks : List Bucket) (price fuel : Nat) (db : DB) (t : RawTx) : Bool :=
+  readsCurrent db t.kin &&
+  decide (price * t.limit ≤ t.fee) &&
+  effective t.view &&
+  reexecRaw bks fuel db t &&
+  writesRead t.view
+
+/-- `XModel.updateExtUtxo`: the version of a stored write is (txid, offset in `TxOutputsExt`); transient
+entries are skipped but counted -/
+def applyW (id : Nat) : List WX → Nat → DB → DB
+  | [], _, db => db
+  | .tr _ :: rest, off, db => applyW id rest (off + 1) db
+  | .kv (b, k, v) :: rest, off, db =>
+    let db' : DB :=
+      if v = 0 then ⟨Store.erase db.live b k, db.dead.put b k ⟨mkVer id off, 0⟩⟩
+      else ⟨db.live.put b k ⟨mkVer id off, v⟩, db.dead⟩
+    applyW id rest (off + 1) db'
+
+def commitRaw (db : DB) (t : RawTx) : DB := applyW t.id t.wext 0 db
+
+/-- `Chain.SubmitTx` on the transaction as it stands -/
+def submitRaw (bks : List Bucket) (price fuel : Nat) (db : DB) (t : RawTx) : DB × Bool :=
+  if verifyRaw bks price fuel db t then (commitRaw db t, true) else (db, false)
+
 end XV.Contract
